@@ -296,12 +296,20 @@ class LeanSide:
     def discharged(self):
         return sum(1 for t in self.theorems if t in self.axioms and set(self.axioms[t]) <= ALLOWED_AXIOMS)
 
-    def drive(self, lines, timeout=1800):
+    def build_srcdriver(self):
+        """the driver that executes the *generated* definitions (translation validation); rebuilt after the translations were
+        refreshed.  A failure is not a problem of its own: a translation that does not compile is already reported."""
+        rc, log = self._lake("srcdriver")
+        self.build_log += log
+        self.srcdriver_ok = rc == 0 and (LEAN / ".lake/build/bin/srcdriver").exists()
+        return self.srcdriver_ok
+
+    def drive(self, lines, timeout=1800, exe="driver"):
         """send request lines to the compiled model driver, return response lines"""
-        if not self.driver_ok:
+        if exe == "driver" and not self.driver_ok:
             raise RuntimeError("driver not built")
         p = subprocess.run(
-            [str(LEAN / ".lake/build/bin/driver")],
+            [str(LEAN / ".lake/build/bin" / exe)],
             input="\n".join(lines) + "\n",
             capture_output=True,
             text=True,
@@ -388,6 +396,13 @@ class Ctx:
     def drive(self, lines):
         self.traces += len(lines)
         return self.lean.drive(lines)
+
+    def drive_src(self, lines):
+        """responses of the translation-validation driver (generated definitions on doubles), or None if it is not built"""
+        if not getattr(self.lean, "srcdriver_ok", False):
+            return None
+        self.traces += len(lines)
+        return self.lean.drive(lines, exe="srcdriver")
 
 
 class ProbeCtx:
